@@ -411,7 +411,9 @@ func (b *BinaryExpr) SQL() string {
 
 func (u *UnaryExpr) SQL() string {
 	p := exprPrec(u)
-	return string(u.Op) + strOpt(u.Op == OpNot, " ") + paren(p, u.Expr)
+	e := paren(p, u.Expr)
+	// "- -1" and "- -a" must not be printed as "--1" and "--a", which start a comment.
+	return string(u.Op) + strOpt(u.Op == OpNot || strings.HasPrefix(e, string(u.Op)), " ") + e
 }
 
 func (i *InExpr) SQL() string {
